@@ -347,8 +347,9 @@ func (idx *Index) DiffWithTree(tree *object.Tree) ([]*DiffEntry, error) {
 
 	// check if there are new files
 	for _, entry := range idx.Entries {
-		_, isFound := object.GetNode(tree.Children, string(entry.Path))
-		if !isFound {
+		node, isFound := object.GetNode(tree.Children, string(entry.Path))
+		// a directory of the same name in the tree is not this file
+		if !isFound || len(node.Children) > 0 {
 			diffEntries = append(diffEntries, &DiffEntry{
 				Dt:    diffNew,
 				Entry: entry,
